@@ -25,8 +25,10 @@ MANIFEST = {
             "B_out scaled by the matching factor; over the reals: zero row/column index, positivity and clip range of R and C, "
             "unit row/column maxima in exact arithmetic.  The binary64 instance of the same definitions is compared bit for bit "
             "with the d and z C code on every run; s and c through a binary32 port of the same statements.",
-    "note": "Rounded-arithmetic versions of the unit-maximum statements are checked by the exact-rational oracle on the C outputs, "
-            "not proved; NaN/Inf inputs are excluded; the X back-scaling after the solve is outside this property.",
+    "note": "Rounded arithmetic: gsequ_unit_max_rounded proves the scaled row/column maxima lie in [(1-u)^k, (1+u)^k] for the "
+            "standard model (the exact statement 'max = 1' is refuted by a binary64 witness, gsequ_unit_max_rounded_full_refuted); "
+            "the exact-rational oracle checks the same interval on the C outputs. NaN/Inf inputs are excluded; the X back-scaling "
+            "after the solve is outside this property.",
     "technique": "Coq theorems about an executable Gallina model (generic arithmetic; PrimFloat instance run by vm_compute) + bit-exact model-vs-C correspondence",
     "design_ref": "DESIGN.md section 5 / C11",
 }
